@@ -3,7 +3,7 @@
    allocation identities (which earlier request's object / head is recycled) and every field
    reachable from HttpRequest. *)
 From Coq Require Import String.
-From AV Require Import Lib.Base Lib.V Web.Pool Gen.Consts.
+From AV Require Import Lib.Base Lib.V Web.Pool Web.PoolSpec Web.PoolObs Gen.Consts.
 Open Scope N_scope.
 
 (* pre-handler actions in the order the router / middleware perform them *)
@@ -55,22 +55,18 @@ Fixpoint uri_path (u : bytes) : bytes :=
   | b :: r => if b =? 63 then [] else b :: uri_path r
   end.
 
-(* Url::path *)
-Definition path_str (o : obj) : bytes :=
-  match o_qpath o with Some p => p | None => uri_path (o_uri o) end.
-Definition sub (s : bytes) (b e : N) : bytes := firstn (N.to_nat (e - b)) (skipn (N.to_nat b) s).
-(* PathIter / Path::get *)
-Definition seg_value (o : obj) (it : pitem) : bytes :=
-  match it with PStatic v => v | PSeg b e => sub (path_str o) b e end.
-(* Path::unprocessed *)
-Definition unprocessed (o : obj) : bytes :=
-  skipn (N.to_nat (N.min (o_skip o) (lenN (path_str o)))) (path_str o).
-(* HttpRequest::app_data::<T>: containers searched from the innermost *)
-Fixpoint resolve (t : N) (stack_rev : list container) : option N :=
-  match stack_rev with
-  | [] => None
-  | cn :: r => match ext_get t cn with Some v => Some v | None => resolve t r end
-  end.
+(* The accessors are the ones of Web/PoolObs.v (the functions the handler-level theorems of
+   Props/C11.v speak about), instantiated with this case's configuration: Uri::path as above; the
+   resource map's look-up by id path is the table [c_rmap]; its look-up by request path answers
+   None for every target of the harness's application that reaches it (a request that no resource
+   fully matched; a matched resource without a name is not found by name through its path
+   either). *)
+Definition pat_by_rids (r : list N) : option bytes := option_map fst (assoc_rids r (c_rmap c)).
+Definition name_by_rids (r : list N) : option bytes :=
+  match assoc_rids r (c_rmap c) with Some (_, n) => n | None => None end.
+Definition by_path_none (_ : bytes) : option bytes := None.
+Definition obs (o : obj) : observed :=
+  observe uri_path pat_by_rids name_by_rids by_path_none by_path_none [0; 1; 2; 3; 4; 5] (view_of o).
 (* RequestHead::connection_type: CLOSE=1, KEEP_ALIVE=2, UPGRADE=4; 0 Close, 1 KeepAlive, 2 Upgrade *)
 Definition ctype (h : head) : N :=
   if N.testbit (h_flags h) 0 then 0
@@ -78,28 +74,24 @@ Definition ctype (h : head) : N :=
   else if N.testbit (h_flags h) 2 then 2
   else if h_version h <? 11 then 0 else 1.
 
-(* HttpRequest::match_pattern / match_name. The by-path fall-back of the resource map is only
-   reached for requests that no resource matched; for the application of the harness it is None. *)
-Definition pat_name (o : obj) : option (bytes * option bytes) :=
-  if o_matched o then assoc_rids (o_rids o) (c_rmap c) else None.
-
 (* canonical rendering with list and number nodes only (string literals are what makes the case
    files slow to parse): an option is VL [] / VL [x], a pair is VL [a; b] *)
 Definition VO (x : option N) : V := match x with None => VL [] | Some n => VL [VN n] end.
 Definition VOB (x : option bytes) : V := match x with None => VL [] | Some b => VL [VBytes b] end.
 Definition dump (o : obj) : V :=
   let h := o_head o in
+  let b := obs o in
   VL [VN (o_id o); VN (h_id h);
-      VBytes (h_method h); VBytes (h_uri h); VN (h_version h);
-      VL (map (fun kv => VL [VBytes (fst kv); VBytes (snd kv)]) (h_headers h));
-      VO (h_peer h); VN (ctype h);
-      VBytes (path_str o); VBytes (unprocessed o);
-      VL (map (fun s => VL [VBytes (fst s); VBytes (seg_value o (snd s))]) (o_segs o));
-      VOB (option_map fst (pat_name o));
-      VOB (match pat_name o with Some (_, n) => n | None => None end);
-      VL (map (fun t => VO (ext_get t (o_exts o))) [0; 1; 2; 3; 4; 5]);
-      VL (map (fun t => VO (resolve t (rev (o_app_data o)))) [0; 1; 2; 3; 4]);
-      VL (map (fun t => VO (match o_conn o with Some cn => ext_get t cn | None => None end)) [0; 1])].
+      VBytes (ob_method b); VBytes (ob_uri b); VN (ob_version b);
+      VL (map (fun kv => VL [VBytes (fst kv); VBytes (snd kv)]) (ob_headers b));
+      VO (ob_peer b); VN (ctype h);
+      VBytes (ob_path b); VBytes (ob_unprocessed b);
+      VL (map (fun s => VL [VBytes (fst s); VBytes (snd s)]) (ob_params b));
+      VOB (ob_pattern b);
+      VOB (ob_name b);
+      VL (map VO (ob_exts b));
+      VL (map VO (firstn 5 (ob_app b)));
+      VL (map VO (firstn 2 (ob_conn b)))].
 
 Record dst := mkD { d_st : st; d_stash : list N; d_held : list N }.
 
